@@ -277,6 +277,11 @@ func metaDigest(r *pdf.Reader) string {
 	fmt.Fprintf(&b, "v=%v;", m.Version)
 	if m.Catalog != nil {
 		fmt.Fprintf(&b, "pages=%v;mode=%v;layout=%v;lang=%v;nr=%v;", m.Catalog.Pages, m.Catalog.PageMode, m.Catalog.PageLayout, m.Catalog.Lang, m.Catalog.NeedsRendering)
+		if md := m.Catalog.Metadata; md != nil {
+			fmt.Fprintf(&b, "metadata:plaintext=%v;", md.Plaintext)
+		} else {
+			b.WriteString("nometadata;")
+		}
 	} else {
 		b.WriteString("nocatalog;")
 	}
